@@ -18,6 +18,7 @@ import XotModel.Driver.Fmap
 import XotModel.Driver.Parse
 import XotModel.Driver.Fclone
 import XotModel.Driver.Repair
+import XotModel.Driver.Fanyorder
 
 open XotModel.Driver
 
@@ -44,6 +45,7 @@ def dispatchAll (st : MState) (line : String) : MState × String :=
   match words line with
   | "forest" :: "spec" :: rest => (st, (handleFspec st.forest ("spec" :: rest)).getD "bad-request")
   | "forest" :: "specx" :: rest => (st, (handleFspec st.forest ("specx" :: rest)).getD "bad-request")
+  | "forest" :: "prog" :: rest => (st, (handleFanyorder st.forest rest).getD "bad-request")
   | "forest" :: "fixed" :: rest => (match handleFfixed st.forest rest with | some (fs, resp) => ({ st with forest := fs }, resp) | none => (st, "bad-request"))
   | "forest" :: rest =>
     (match (handleFclone st.d.env st.forest rest).orElse (fun _ => handleForest st.forest rest) with
